@@ -759,6 +759,13 @@ func (g *Gen) makeInterface(v *ssa.MakeInterface) {
 	if s == SInt && isInteger(xt) && !hasStringMethod(xt) {
 		g.guard(eq("(fmt.any "+r+")", "(itoa "+x+")"))
 	}
+	if sl, ok := xt.Underlying().(*types.Slice); ok && s == SSlc && !hasStringMethod(xt) {
+		if b, ok := sl.Elem().Underlying().(*types.Basic); ok && b.Kind() == types.Uint8 {
+			// %s / %v of a byte slice print its bytes (content at the time of boxing: the value is boxed
+			// right in front of the formatting call)
+			g.guard(eq("(fmt.any "+r+")", "(str.of (select "+g.heap(g.arrHeap(sl.Elem()))+" (sl_arr "+x+")) (sl_off "+x+") (sl_len "+x+"))"))
+		}
+	}
 }
 
 func namedPkg(t types.Type) *types.Package {
